@@ -161,8 +161,8 @@ def clausesE (evs : List Ev) : Clauses :=
 def arrays (s : Stmt) : List Nat := arraysE (sacc s)
 def clauses (s : Stmt) : Clauses := clausesE (sacc s)
 
-/-- region items as seen by `ACCDataTrans.validate`: a MiniF statement, or a node of an
-excluded type (`CodeBlock`, `Return`, `PSyDataNode`) at the top level of the region -/
+/-- region items as seen by `ACCDataTrans.validate`: a MiniF statement, or a top-level node
+that is or contains (`walk`) a node of an excluded type (`CodeBlock`, `Return`, `PSyDataNode`) -/
 inductive Item where
   | stmt (s : Stmt)
   | excluded
